@@ -243,13 +243,14 @@ STEP_HARNESSES = [
     de("env_step_b1_any", "same with the trading flag symbolic (matching included)", covers=[], tiers=("thorough",), timeout=3000),
     de("env_step_b1_modify_on", "one arbitrary Modify instruction with the REAL process_event, trading ON (re-pricing that executes included)", covers=[], tiers=("thorough",), timeout=3000),
     de("env_step_b1_new_on", "one arbitrary New instruction with the REAL process_event, trading ON", covers=[], tiers=("thorough",), timeout=3000),
-    de("env_step_b2_any_off", "two arbitrary instructions with the REAL process_event, trading off, all schedules == plain replay in the induced order", covers=["cover.last_submitted_processed_first"], tiers=("thorough",), timeout=3000),
+    # (not scheduled in any tier: did not finish in 60 min on this box; kept for bigger machines)
+    de("env_step_b2_any_off", "two arbitrary instructions with the REAL process_event, trading off, all schedules == plain replay in the induced order", covers=["cover.last_submitted_processed_first"], tiers=(), timeout=3000),
 ]
 
 PROPS["C08"] = {
     "level": "model_checking", "functions": STEP_FUNCS + BOOK_FUNCS[:2], "assumptions": DE_ASSUME,
     "bounds": "batch 0..3 (4 thorough) instructions over a 2-entry order table, 2 published levels, 1 prior record, full-width values, ALL generator words",
-    "outside": "batches > 4, tables > 2 entries, LEVELS > 2; the composition 'step loop + process_event == plain replay' is decided end-to-end only for batches of 0 and 1 (2 with trading off in the thorough tier) and otherwise follows from the loop harnesses plus C01/C06/C13 by function-call semantics (stated, not solved); MarketEnv::step: see C14",
+    "outside": "batches > 4, tables > 2 entries, LEVELS > 2; the composition 'step loop + process_event == plain replay' is decided end-to-end only for batches of 0 and 1 (2 real instructions, even with trading off: no verdict in 60 min) and otherwise follows from the loop harnesses plus C01/C06/C13 by function-call semantics (stated, not solved); MarketEnv::step: see C14",
     "explanation": "Env::step decomposed: (a) the step LOOP with process_event replaced by a logging stand-in, fully symbolic batches and generator words: queue emptied, every queued instruction processed exactly once in the permutation the words induce on [0..n), the i-th at book time start+i, arguments intact, nothing else applied, clock = start+step_size, counter reset at the start and recorded at the end, exactly n-1 words drawn; (b) end-to-end with the real process_event for batches of 0 and 1: final book == the reference engine replaying the instruction at start+0.",
     "stubs": [STUB_LOOP, "std BTreeMap -> verif_map (cfg(kani) only)"],
     "harnesses": STEP_HARNESSES,
